@@ -407,4 +407,483 @@ Section Sound.
     intros Hf Hx d Hd. destruct x; cbn; [apply Hf; assumption|].
     destruct (Nat.eqb_spec d d0); [lia | apply Hf; assumption].
   Qed.
+
+  (* ---- plumbing ---- *)
+  Lemma seq_ok (a : res) (k : lst -> res) code s' :
+    seq a k = Ok (code, s') -> exists c1 s1 c2, a = Ok (c1, s1) /\ k s1 = Ok (c2, s') /\ code = c1 ++ c2.
+  Proof.
+    unfold seq. destruct a as [[c1 s1]| | |]; try discriminate.
+    destruct (k s1) as [[c2 s2]| | |] eqn:Ek; try discriminate.
+    intros H. inversion H. subst. exists c1, s1, c2. auto.
+  Qed.
+
+  Lemma eval_s_bin te m a op b :
+    eval_s te m (EBin a op b) = (do av <- eval_s te m a; do bv <- eval_s te m b; binop_eval T op av bv).
+  Proof. reflexivity. Qed.
+
+  Lemma eval_s_un te m op b :
+    eval_s te m (EUn op b) =
+    (do v <- eval_s te m b;
+     match sigil_of_unop op with
+     | Some sg => expect (cast_by_sigil (Some sg) v)
+     | None => do r <- unop_eval libm T op v; expect r
+     end).
+  Proof. reflexivity. Qed.
+
+  (* replacing the right-hand side by an expression with the same value, in a memory that differs
+     only at a local [d] which the statement does not touch *)
+  Lemma assign_s_subst te te1 m v aop e e' m' d xv :
+    assign_s te m v aop e = Ok m' ->
+    v_id v <> VLoc d ->
+    eval_s te1 (update m (VLoc d) xv) e' = eval_s te m e ->
+    eval_s te1 (update m (VLoc d) xv) (var_expr v) = eval_s te m (var_expr v) ->
+    assign_s te1 (update m (VLoc d) xv) v aop e' = Ok (update m' (VLoc d) xv).
+  Proof.
+    unfold assign_s. intros H Hv He Hold. rewrite He.
+    destruct (eval_s te m e) as [val| | |]; cbn [obind] in *; try discriminate.
+    destruct aop as [b|].
+    - rewrite Hold. destruct (eval_s te m (var_expr v)) as [old| | |]; cbn [obind] in *; try discriminate.
+      destruct (binop_eval T b old val) as [r| | |]; cbn [obind] in *; try discriminate.
+      inversion H. f_equal. apply update_comm. congruence.
+    - inversion H. f_equal. apply update_comm. congruence.
+  Qed.
+
+  Lemma eval_var_indep te te1 n m v d xv :
+    te_agree n te te1 -> var_below n v -> (n <= d)%nat ->
+    eval_s te1 (update m (VLoc d) xv) (var_expr v) = eval_s te m (var_expr v).
+  Proof.
+    intros Ha Hb Hd.
+    rewrite (agree_eval n te te1 _ Ha) by (apply below_var_expr; assumption).
+    apply eval_update_indep; [apply wt_var_expr|].
+    apply (below_not_uses n d Hd). apply below_var_expr. assumption.
+  Qed.
+
+  Lemma var_below_neq n v d : var_below n v -> (n <= d)%nat -> v_id v <> VLoc d.
+  Proof. unfold var_below. destruct (v_id v); intros H Hd; [discriminate|]. intros E. inversion E. lia. Qed.
+
+  Definition IHf (f : nat) : Prop :=
+    forall c s code s', lower f c s = Ok (code, s') -> wf_call (g s) (te s) c ->
+    forall m m', fresh m (g s) -> sem_call (te s) m c = Ok m' ->
+    run_pure code m = Ok m' /\ (g s <= g s')%nat /\ te_agree (g s) (te s) (te s').
+
+  (* allocate a temporary and compute [ea] into it *)
+  Lemma temp_compute f (IH : IHf f) s ea tmp_ty m xv c1 s2 :
+    wt_pure (te s) ea = true -> locals_below (g s) ea = true -> fresh m (g s) ->
+    eval_s (te s) m ea = Ok xv ->
+    lower f (CAssignOp (mkvar (Some (sigil_of_ty tmp_ty)) (VLoc (g s))) None ea)
+          (mklst (S (g s)) ((g s, tmp_ty) :: te s)) = Ok (c1, s2) ->
+    run_pure (LAlloc (g s) tmp_ty :: c1) m = Ok (update m (VLoc (g s)) xv) /\
+    (S (g s) <= g s2)%nat /\ te_agree (g s) (te s) (te s2).
+  Proof.
+    intros Hw Hb Hf He Hl.
+    set (d := g s) in *. set (te1 := (d, tmp_ty) :: te s) in *.
+    assert (Ha : te_agree d (te s) te1) by (apply te_agree_cons; lia).
+    set (m0 := update m (VLoc d) (default_of tmp_ty)).
+    assert (Hsem : sem_call te1 m0 (CAssignOp (mkvar (Some (sigil_of_ty tmp_ty)) (VLoc d)) None ea)
+                   = Ok (update m (VLoc d) xv)).
+    { cbn [sem_call]. unfold assign_s.
+      rewrite (agree_eval d (te s) te1 m0 Ha ea Hb).
+      unfold m0. rewrite eval_update_indep; [|assumption| apply (below_not_uses d d); [lia|assumption]].
+      rewrite He. cbn [obind v_id]. f_equal. apply update_update_same. }
+    destruct (IH _ _ _ _ Hl) with (m := m0) (m' := update m (VLoc d) xv) as [Hr [Hg Hte]].
+    - cbn [wf_call g te]. split; [|split].
+      + rewrite (agree_wt d (te s) te1 Ha ea Hb). assumption.
+      + apply (locals_below_mono d (S d)); [lia | assumption].
+      + unfold var_below. cbn. lia.
+    - cbn [g]. apply fresh_update; [|lia]. intros d' Hd'. apply Hf. lia.
+    - exact Hsem.
+    - cbn [g te] in *. split; [|split].
+      + cbn [LowerSem.run_pure]. exact Hr.
+      + exact Hg.
+      + eapply te_agree_trans; [| exact Ha | exact Hte]. lia.
+  Qed.
+
+  (* ... run the continuation, free the temporary *)
+  Lemma temp_close d tmp_ty c1 c2 m m' xv :
+    run_pure (LAlloc d tmp_ty :: c1) m = Ok (update m (VLoc d) xv) ->
+    run_pure c2 (update m (VLoc d) xv) = Ok (update m' (VLoc d) xv) ->
+    locs m' d = default_of (lty d) ->
+    run_pure ((LAlloc d tmp_ty :: c1) ++ c2 ++ [LFree d]) m = Ok m'.
+  Proof.
+    intros H1 H2 Hd. rewrite run_pure_app, H1. cbn [obind]. rewrite run_pure_app, H2. cbn [obind LowerSem.run_pure].
+    f_equal. rewrite update_update_same. rewrite <- Hd. apply (update_lookup_id m' (VLoc d)).
+  Qed.
+
+  (* ---- the three places where an instruction is emitted ---- *)
+  Hypothesis no_sigil_intrinsics : forall op t, sigil_of_unop op <> None -> avail (KUnOp op t) = false.
+
+  Lemma read_dst te m v :
+    read_arg m (TVar (var_read_ty te v) (v_id v)) = eval_s te m (var_expr v).
+  Proof. rewrite eval_var_expr. reflexivity. Qed.
+
+  Lemma leaf_assign s m m' v aop a ta e code s' :
+    assign_intrinsic avail rty lty time mask v aop a ta s = Ok (code, s') ->
+    read_arg m a = eval_s (te s) m e ->
+    assign_s (te s) m v aop e = Ok m' ->
+    run_pure code m = Ok m' /\ s' = s.
+  Proof.
+    unfold assign_intrinsic, var_arg, assign_s. intros Hl Hr Hs.
+    destruct (negb (ty_eqb (var_read_ty (te s) v) ta)); [discriminate|].
+    destruct (eval_s (te s) m e) as [val| | |] eqn:Ev; cbn [obind] in Hs; try discriminate.
+    destruct (alt_assign_for avail aop (var_read_ty (te s) v)) as [alt|] eqn:Ealt; [|discriminate].
+    destruct alt as [|b]; unfold instr, ret in Hl; inversion Hl; subst code s'; split; try reflexivity;
+      cbn [LowerSem.run_pure LowerSem.exec_pure].
+    - destruct aop as [b|].
+      + rewrite read_dst, Hr.
+        destruct (eval_s (te s) m (var_expr v)) as [old| | |]; cbn [obind] in *; try discriminate.
+        destruct (binop_eval T b old val); cbn [obind] in *; try discriminate. exact Hs.
+      + rewrite Hr. cbn [obind LowerSem.write_arg]. exact Hs.
+    - (* via binop: only for compound assignment *)
+      unfold alt_assign_for in Ealt.
+      destruct (avail (KAssignOp aop (var_read_ty (te s) v))); [discriminate|].
+      destruct aop as [b'|]; [|discriminate].
+      destruct (avail (KBinOp b' (var_read_ty (te s) v))); [|discriminate].
+      inversion Ealt; subst b'.
+      rewrite read_dst, Hr.
+      destruct (eval_s (te s) m (var_expr v)) as [old| | |]; cbn [obind] in *; try discriminate.
+      destruct (binop_eval T b old val); cbn [obind] in *; try discriminate. exact Hs.
+  Qed.
+
+  Lemma leaf_binop s m m' v a op b la ta lb code s' :
+    need avail time mask (KBinOp op ta) (IBinOp op ta (TVar (var_read_ty (te s) v) (v_id v)) la lb) s = Ok (code, s') ->
+    read_arg m la = eval_s (te s) m a -> read_arg m lb = eval_s (te s) m b ->
+    assign_s (te s) m v None (EBin a op b) = Ok m' ->
+    run_pure code m = Ok m' /\ s' = s.
+  Proof.
+    unfold need, instr, ret, assign_s. intros Hl Ha Hb Hs.
+    destruct (avail (KBinOp op ta)); [|discriminate]. inversion Hl; subst code s'. split; [|reflexivity].
+    cbn [LowerSem.run_pure LowerSem.exec_pure]. rewrite Ha, Hb.
+    rewrite eval_s_bin in Hs.
+    destruct (eval_s (te s) m a) as [av| | |]; cbn [obind] in *; try discriminate.
+    destruct (eval_s (te s) m b) as [bv| | |]; cbn [obind] in *; try discriminate.
+    destruct (binop_eval T op av bv) as [r| | |]; cbn [obind] in *; try discriminate.
+    exact Hs.
+  Qed.
+
+  Lemma leaf_unop (HT : T_ok) s m m' v op b lb code s' :
+    wt_pure (te s) b = true ->
+    unop_intrinsic avail time mask (TVar (var_read_ty (te s) v) (v_id v)) op lb (ety (te s) b) s = Ok (code, s') ->
+    read_arg m lb = eval_s (te s) m b ->
+    assign_s (te s) m v None (EUn op b) = Ok m' ->
+    run_pure code m = Ok m' /\ s' = s.
+  Proof.
+    unfold unop_intrinsic, instr, ret, assign_s. intros Hw Hl Hb Hs.
+    rewrite eval_s_un in Hs.
+    destruct (eval_s (te s) m b) as [bv| | |] eqn:Eb; cbn [obind] in Hs; try discriminate.
+    assert (Hty : vty bv = Some (ety (te s) b)) by (eapply eval_ty; eassumption).
+    destruct (alt_unop_for avail op (ety (te s) b)) as [alt|] eqn:Ealt; [|discriminate].
+    assert (Hns : sigil_of_unop op = None).
+    { destruct (sigil_of_unop op) eqn:E; [|reflexivity]. exfalso.
+      unfold alt_unop_for in Ealt. rewrite no_sigil_intrinsics in Ealt by congruence.
+      destruct op; cbn in E; discriminate. }
+    rewrite Hns in Hs.
+    destruct (unop_eval libm T op bv) as [r| | |] eqn:Eu; cbn [obind] in Hs; try discriminate.
+    destruct r as [rv|]; cbn [expect obind] in Hs; [|discriminate].
+    destruct alt as [|c bop]; inversion Hl; subst code s'; split; try reflexivity;
+      cbn [LowerSem.run_pure LowerSem.exec_pure]; rewrite Hb; cbn [obind LowerSem.read_arg].
+    - rewrite Eu. cbn [obind LowerSem.write_arg]. exact Hs.
+    - (* -x as -1 * x ; ~x as -1 - x *)
+      unfold alt_unop_for in Ealt. destruct (avail (KUnOp op (ety (te s) b))); [discriminate|].
+      destruct op; try discriminate.
+      + (* Neg *) destruct (avail (KBinOp Mul (ety (te s) b))); [|discriminate]. inversion Ealt; subst c bop.
+        destruct bv as [x|x|]; cbn in Hty; inversion Hty as [Ht].
+        * destruct (T_neg_mul_i HT x) as [H1 H2]. rewrite H1 in Eu. inversion Eu; subst rv.
+          rewrite H2. cbn [obind LowerSem.write_arg]. replace (-1 * x) with (- x) by lia. exact Hs.
+        * destruct (T_neg_mul_f HT x) as [y [H1 H2]]. rewrite H1 in Eu. inversion Eu; subst rv.
+          rewrite H2. cbn [obind LowerSem.write_arg]. exact Hs.
+      + (* BitNot *) destruct (ety (te s) b) eqn:Et; [|discriminate].
+        destruct (avail (KBinOp Sub TInt)); [|discriminate]. inversion Ealt; subst c bop.
+        destruct bv as [x|x|]; cbn in Hty; inversion Hty.
+        destruct (T_bitnot_sub HT x) as [H1 H2]. rewrite H1 in Eu. inversion Eu; subst rv.
+        rewrite H2. cbn [obind LowerSem.write_arg]. replace (-1 - x) with (Z.lnot x) by (unfold Z.lnot; lia). exact Hs.
+  Qed.
+
+  (* the "define a temporary, continue with it, free it" shape shared by all call sites *)
+  Lemma temp_site f (IH : IHf f) s ea tmp_ty read_ty (K : expr -> call) code s' m m' xv :
+    seq (ret [LAlloc (g s) tmp_ty] (mklst (S (g s)) ((g s, tmp_ty) :: te s))) (fun s2 =>
+    seq (lower f (CAssignOp (mkvar (Some (sigil_of_ty tmp_ty)) (VLoc (g s))) None ea) s2) (fun s3 =>
+    seq (lower f (K (read_as (mkvar (Some (sigil_of_ty tmp_ty)) (VLoc (g s))) read_ty)) s3) (fun s4 =>
+    ret [LFree (g s)] s4))) = Ok (code, s') ->
+    wt_pure (te s) ea = true -> locals_below (g s) ea = true -> fresh m (g s) ->
+    eval_s (te s) m ea = Ok xv ->
+    (forall s3, (S (g s) <= g s3)%nat -> te_agree (g s) (te s) (te s3) ->
+       wf_call (g s3) (te s3) (K (read_as (mkvar (Some (sigil_of_ty tmp_ty)) (VLoc (g s))) read_ty)) /\
+       sem_call (te s3) (update m (VLoc (g s)) xv) (K (read_as (mkvar (Some (sigil_of_ty tmp_ty)) (VLoc (g s))) read_ty))
+         = Ok (update m' (VLoc (g s)) xv)) ->
+    locs m' (g s) = default_of (lty (g s)) ->
+    run_pure code m = Ok m' /\ (g s <= g s')%nat /\ te_agree (g s) (te s) (te s').
+  Proof.
+    intros Hl Hw Hb Hf He HK Hd.
+    apply seq_ok in Hl. destruct Hl as [c0 [s2 [cr [H0 [Hl Hcode]]]]].
+    unfold ret in H0. inversion H0; subst c0 s2. clear H0.
+    apply seq_ok in Hl. destruct Hl as [c1 [s3 [cr2 [H1 [Hl Hcode2]]]]].
+    apply seq_ok in Hl. destruct Hl as [c2 [s4 [c3 [H2 [H3 Hcode3]]]]].
+    unfold ret in H3. inversion H3; subst c3 s4. clear H3.
+    destruct (temp_compute f IH s ea tmp_ty m xv c1 s3 Hw Hb Hf He H1) as [Hr1 [Hg1 Ht1]].
+    destruct (HK s3 Hg1 Ht1) as [Hwf Hsem].
+    destruct (IH _ _ _ _ H2 Hwf (update m (VLoc (g s)) xv) (update m' (VLoc (g s)) xv)) as [Hr2 [Hg2 Ht2]].
+    - apply fresh_update; [|lia]. intros d Hd'. apply Hf. lia.
+    - exact Hsem.
+    - subst code cr cr2. split; [|split].
+      + change ([LAlloc (g s) tmp_ty] ++ c1 ++ c2 ++ [LFree (g s)]) with ((LAlloc (g s) tmp_ty :: c1) ++ c2 ++ [LFree (g s)]).
+        eapply temp_close; eassumption.
+      + lia.
+      + eapply te_agree_trans; [| exact Ht1 | exact Ht2]. lia.
+  Qed.
+  Lemma assign_val te m v aop e m' : assign_s te m v aop e = Ok m' -> exists val, eval_s te m e = Ok val.
+  Proof. unfold assign_s. destruct (eval_s te m e); cbn; try discriminate. eauto. Qed.
+
+  Lemma var_below_mono n n' v : (n <= n')%nat -> var_below n v -> var_below n' v.
+  Proof. unfold var_below. destruct (v_id v); [auto | lia]. Qed.
+
+  Lemma assign_bin_inv te m v a op b m' : assign_s te m v None (EBin a op b) = Ok m' ->
+    exists av bv r, eval_s te m a = Ok av /\ eval_s te m b = Ok bv /\ binop_eval T op av bv = Ok r /\
+                    m' = update m (v_id v) r.
+  Proof.
+    unfold assign_s. rewrite eval_s_bin.
+    destruct (eval_s te m a) as [av| | |]; cbn [obind]; try discriminate.
+    destruct (eval_s te m b) as [bv| | |]; cbn [obind]; try discriminate.
+    destruct (binop_eval T op av bv) as [r| | |] eqn:E; cbn [obind]; try discriminate.
+    intros H. inversion H. exists av, bv, r. auto.
+  Qed.
+  Lemma assign_bin_intro te m v a op b av bv r : eval_s te m a = Ok av -> eval_s te m b = Ok bv ->
+    binop_eval T op av bv = Ok r -> assign_s te m v None (EBin a op b) = Ok (update m (v_id v) r).
+  Proof. intros Ha Hb Hr. unfold assign_s. rewrite eval_s_bin, Ha, Hb. cbn [obind]. rewrite Hr. reflexivity. Qed.
+
+  Definition un_val (op : unop) (v : value) : outcome value :=
+    match sigil_of_unop op with
+    | Some sg => expect (cast_by_sigil (Some sg) v)
+    | None => do r <- unop_eval libm T op v; expect r
+    end.
+  Lemma assign_un_inv te m v op b m' : assign_s te m v None (EUn op b) = Ok m' ->
+    exists bv r, eval_s te m b = Ok bv /\ un_val op bv = Ok r /\ m' = update m (v_id v) r.
+  Proof.
+    unfold assign_s. rewrite eval_s_un. fold (un_val op).
+    destruct (eval_s te m b) as [bv| | |]; cbn [obind]; try discriminate.
+    fold (un_val op bv). destruct (un_val op bv) as [r| | |] eqn:E; cbn [obind]; try discriminate.
+    intros H. inversion H. exists bv, r. auto.
+  Qed.
+  Lemma assign_un_intro te m v op b bv r : eval_s te m b = Ok bv -> un_val op bv = Ok r ->
+    assign_s te m v None (EUn op b) = Ok (update m (v_id v) r).
+  Proof. intros Hb Hr. unfold assign_s. rewrite eval_s_un, Hb. cbn [obind]. fold (un_val op bv). rewrite Hr. reflexivity. Qed.
+
+  Theorem lower_sound (HT : T_ok) : forall f, IHf f.
+  Proof.
+    induction f as [|f IH]; intros c s code s' Hl Hwf m m' Hfr Hsem; [discriminate|].
+    destruct c; try contradiction.
+    - (* CAssignOp *)
+      destruct Hwf as [Hw [Hb Hv]].
+      cbn [Lower.lower] in Hl.
+      destruct (classify (te s) rhs) as [a ta | ea tmp_ty read_ty] eqn:Ec.
+      + destruct (classify_simple (te s) m rhs a ta Hw Ec) as [Hr _].
+        destruct (leaf_assign _ _ _ _ _ _ _ _ _ _ Hl Hr Hsem) as [Hrun ->].
+        split; [exact Hrun | split; [lia | apply te_agree_refl]].
+      + destruct (classify_elab HT (te s) rhs ea tmp_ty read_ty Hw Ec)
+          as [Hwea [Htmp [Hread [Huse [Hbel Hev]]]]].
+        cbn [sem_call] in Hsem.
+        destruct (assign_val _ _ _ _ _ _ Hsem) as [val Hval].
+        destruct (Hev m val Hval) as [xv [Hxv Hcast]].
+        assert (Hbea : locals_below (g s) ea = true) by (apply Hbel; exact Hb).
+        destruct (assign_s_shape _ _ _ _ _ _ Hsem) as [r Hm'].
+        assert (Hd : locs m' (g s) = default_of (lty (g s))).
+        { subst m'. unfold var_below in Hv. destruct (v_id v) as [r0|d0]; cbn; [apply Hfr; lia|].
+          destruct (Nat.eqb_spec (g s) d0); [lia | apply Hfr; lia]. }
+        assert (Htemp :
+          (let '(d, tv, s1) := alloc_temp tmp_ty s in
+           seq (ret [LAlloc d tmp_ty] s1) (fun s2 =>
+           seq (lower f (CAssignOp tv None ea) s2) (fun s3 =>
+           seq (lower f (CAssignOp v aop (read_as tv read_ty)) s3) (fun s4 => ret [LFree d] s4)))) = Ok (code, s') ->
+          run_pure code m = Ok m' /\ (g s <= g s')%nat /\ te_agree (g s) (te s) (te s')).
+        { intros Hl'. unfold alloc_temp in Hl'.
+          eapply (temp_site f IH s ea tmp_ty read_ty (fun e => CAssignOp v aop e));
+            [exact Hl' | exact Hwea | exact Hbea | exact Hfr | exact Hxv | | exact Hd].
+          intros s3 Hg3 Ht3. split.
+          - cbn [wf_call]. split; [apply wt_read_as | split].
+            + apply below_read_as. unfold var_below. cbn. lia.
+            + apply (var_below_mono (g s)); [lia | exact Hv].
+          - cbn [sem_call].
+            eapply assign_s_subst; [exact Hsem | apply (var_below_neq (g s)); [exact Hv | lia] | | ].
+            + rewrite eval_read_as. cbn [v_id]. rewrite lookup_update_same. rewrite Hcast. cbn. symmetry. exact Hval.
+            + apply (eval_var_indep (te s) (te s3) (g s)); [exact Ht3 | exact Hv | lia]. }
+        destruct (negb (ty_eqb read_ty tmp_ty)) eqn:Eneq; [apply Htemp; exact Hl|].
+        destruct aop as [bop|]; [apply Htemp; exact Hl|].
+        apply Bool.negb_false_iff in Eneq. apply ty_eqb_eq in Eneq.
+        assert (Hxval : val = xv).
+        { assert (Hty : vty xv = Some tmp_ty) by (rewrite Htmp; eapply eval_ty; eassumption).
+          rewrite Eneq in Hcast. rewrite (cast_id _ _ Hty) in Hcast. congruence. }
+        subst val.
+        assert (Hsem' : assign_s (te s) m v None ea = Ok m').
+        { unfold assign_s in *. rewrite Hval in Hsem. rewrite Hxv. exact Hsem. }
+        destruct ea; try discriminate.
+        * apply (IH _ _ _ _ Hl); [cbn [wf_call]; auto | exact Hfr | exact Hsem'].
+        * apply (IH _ _ _ _ Hl); [cbn [wf_call]; auto | exact Hfr | exact Hsem'].
+    - (* CBinop *)
+      destruct Hwf as [Hw [Hb Hv]].
+      cbn [LowerSem.wt_pure] in Hw. apply andb_prop in Hw. destruct Hw as [Hw Hio].
+      apply andb_prop in Hw. destruct Hw as [Hw Hsame]. apply andb_prop in Hw. destruct Hw as [Hwa Hwb].
+      apply ty_eqb_eq in Hsame.
+      cbn [locals_below] in Hb. apply andb_prop in Hb. destruct Hb as [Hba Hbb].
+      cbn [sem_call] in Hsem.
+      destruct (assign_bin_inv _ _ _ _ _ _ _ Hsem) as [av [bv [r [Hav [Hbv [Hr Hm']]]]]].
+      assert (Hd : locs m' (g s) = default_of (lty (g s))).
+      { subst m'. unfold var_below in Hv. destruct (v_id v) as [r0|d0]; cbn; [apply Hfr; lia|].
+        destruct (Nat.eqb_spec (g s) d0); [lia | apply Hfr; lia]. }
+      cbn [Lower.lower] in Hl.
+      destruct (classify (te s) a) as [la ta | ea tmp_ty read_ty] eqn:Eca.
+      + destruct (classify_simple (te s) m a la ta Hwa Eca) as [Hra Hta].
+        destruct (classify (te s) b) as [lb tb | eb tmp_ty read_ty] eqn:Ecb.
+        * (* both simple *)
+          destruct (classify_simple (te s) m b lb tb Hwb Ecb) as [Hrb Htb].
+          unfold var_arg in Hl.
+          destruct (negb (ty_eqb (var_read_ty (te s) v) (if is_arith op then ety (te s) a else TInt))); [discriminate|].
+          destruct (leaf_binop _ _ _ _ _ _ _ _ _ _ _ _ Hl Hra Hrb Hsem) as [Hrun ->].
+          split; [exact Hrun | split; [lia | apply te_agree_refl]].
+        * (* b needs elaboration *)
+          destruct (classify_elab HT (te s) b eb tmp_ty read_ty Hwb Ecb) as [Hweb [Htmp [Hread [Huse [Hbel Hev]]]]].
+          destruct (Hev m bv Hbv) as [xv [Hxv Hcast]].
+          assert (Hbeb : locals_below (g s) eb = true) by (apply Hbel; exact Hbb).
+          destruct (ty_eqb tmp_ty (if is_arith op then ety (te s) a else TInt) && ty_eqb tmp_ty read_ty && negb (uses_var (v_id v) a)) eqn:Ereuse.
+          -- (* reuse the destination *)
+             apply andb_prop in Ereuse. destruct Ereuse as [_ Hnu]. apply Bool.negb_true_iff in Hnu.
+             apply seq_ok in Hl. destruct Hl as [c1 [s1 [c2 [H1 [H2 Hcode]]]]].
+             destruct (IH _ _ _ _ H1) with (m := m) (m' := update m (v_id v) xv) as [Hr1 [Hg1 Ht1]];
+               [cbn [wf_call]; auto | exact Hfr | cbn [sem_call]; unfold assign_s; rewrite Hxv; reflexivity |].
+             destruct (IH _ _ _ _ H2) with (m := update m (v_id v) xv) (m' := m') as [Hr2 [Hg2 Ht2]].
+             ++ cbn [wf_call LowerSem.wt_pure locals_below]. split; [|split].
+                ** rewrite (agree_wt (g s) (te s) (te s1) Ht1 a Hba), Hwa, wt_read_as.
+                   rewrite ety_read_as, (agree_ety (g s) (te s) (te s1) Ht1 a Hba).
+                   rewrite Hread, Hsame, ty_eqb_refl. cbn [andb]. rewrite <- Hsame. exact Hio.
+                ** rewrite (locals_below_mono (g s) (g s1) Hg1 a Hba). cbn [andb].
+                   apply below_read_as. apply (var_below_mono (g s)); assumption.
+                ** apply (var_below_mono (g s)); assumption.
+             ++ apply fresh_update; [intros d Hd'; apply Hfr; lia|].
+                unfold var_below in Hv. destruct (v_id v); [exact I | lia].
+             ++ cbn [sem_call]. subst m'.
+                rewrite <- (update_update_same m (v_id v) xv r).
+                apply assign_bin_intro with (av := av) (bv := bv); [| | exact Hr].
+                ** rewrite (agree_eval (g s) (te s) (te s1) _ Ht1 a Hba).
+                   rewrite eval_update_indep; [exact Hav | exact Hwa | exact Hnu].
+                ** rewrite eval_read_as, lookup_update_same, Hcast. reflexivity.
+             ++ subst code. split; [|split].
+                ** rewrite run_pure_app, Hr1. cbn [obind]. exact Hr2.
+                ** lia.
+                ** eapply te_agree_trans; [| exact Ht1 | exact Ht2]. lia.
+          -- (* through a temporary *)
+             unfold alloc_temp in Hl.
+             eapply (temp_site f IH s eb tmp_ty read_ty (fun e => CBinop v a op e));
+               [exact Hl | exact Hweb | exact Hbeb | exact Hfr | exact Hxv | | exact Hd].
+             intros s3 Hg3 Ht3. split.
+             ++ cbn [wf_call LowerSem.wt_pure locals_below]. split; [|split].
+                ** rewrite (agree_wt (g s) (te s) (te s3) Ht3 a Hba), Hwa, wt_read_as.
+                   rewrite ety_read_as, (agree_ety (g s) (te s) (te s3) Ht3 a Hba).
+                   rewrite Hread, Hsame, ty_eqb_refl. cbn [andb]. rewrite <- Hsame. exact Hio.
+                ** apply andb_true_intro. split; [apply (locals_below_mono (g s)); [lia | exact Hba]|].
+                   apply below_read_as. unfold var_below. cbn. lia.
+                ** apply (var_below_mono (g s)); [lia | exact Hv].
+             ++ cbn [sem_call]. subst m'.
+                rewrite <- update_comm by (apply not_eq_sym; apply (var_below_neq (g s)); [exact Hv | lia]).
+                apply assign_bin_intro with (av := av) (bv := bv); [| | exact Hr].
+                ** rewrite (agree_eval (g s) (te s) (te s3) _ Ht3 a Hba).
+                   rewrite eval_update_indep; [exact Hav | exact Hwa | apply (below_not_uses (g s)); [lia | exact Hba]].
+                ** rewrite eval_read_as. cbn [v_id]. rewrite lookup_update_same, Hcast. reflexivity.
+      + (* a needs elaboration *)
+        destruct (classify_elab HT (te s) a ea tmp_ty read_ty Hwa Eca) as [Hwea [Htmp [Hread [Huse [Hbel Hev]]]]].
+        destruct (Hev m av Hav) as [xv [Hxv Hcast]].
+        assert (Hbea : locals_below (g s) ea = true) by (apply Hbel; exact Hba).
+        destruct (ty_eqb tmp_ty (if is_arith op then ety (te s) a else TInt) && ty_eqb tmp_ty read_ty && negb (uses_var (v_id v) b)) eqn:Ereuse.
+        * (* reuse the destination *)
+          apply andb_prop in Ereuse. destruct Ereuse as [_ Hnu]. apply Bool.negb_true_iff in Hnu.
+          apply seq_ok in Hl. destruct Hl as [c1 [s1 [c2 [H1 [H2 Hcode]]]]].
+          destruct (IH _ _ _ _ H1) with (m := m) (m' := update m (v_id v) xv) as [Hr1 [Hg1 Ht1]];
+            [cbn [wf_call]; auto | exact Hfr | cbn [sem_call]; unfold assign_s; rewrite Hxv; reflexivity |].
+          destruct (IH _ _ _ _ H2) with (m := update m (v_id v) xv) (m' := m') as [Hr2 [Hg2 Ht2]].
+          -- cbn [wf_call LowerSem.wt_pure locals_below]. split; [|split].
+             ++ rewrite (agree_wt (g s) (te s) (te s1) Ht1 b Hbb), Hwb, wt_read_as.
+                rewrite ety_read_as, (agree_ety (g s) (te s) (te s1) Ht1 b Hbb).
+                rewrite Hread, Hsame, ty_eqb_refl. cbn [andb]. rewrite <- Hsame. exact Hio.
+             ++ rewrite (locals_below_mono (g s) (g s1) Hg1 b Hbb). rewrite Bool.andb_true_r.
+                apply below_read_as. apply (var_below_mono (g s)); assumption.
+             ++ apply (var_below_mono (g s)); assumption.
+          -- apply fresh_update; [intros d Hd'; apply Hfr; lia|].
+             unfold var_below in Hv. destruct (v_id v); [exact I | lia].
+          -- cbn [sem_call]. subst m'.
+             rewrite <- (update_update_same m (v_id v) xv r).
+             apply assign_bin_intro with (av := av) (bv := bv); [| | exact Hr].
+             ++ rewrite eval_read_as, lookup_update_same, Hcast. reflexivity.
+             ++ rewrite (agree_eval (g s) (te s) (te s1) _ Ht1 b Hbb).
+                rewrite eval_update_indep; [exact Hbv | exact Hwb | exact Hnu].
+          -- subst code. split; [|split].
+             ++ rewrite run_pure_app, Hr1. cbn [obind]. exact Hr2.
+             ++ lia.
+             ++ eapply te_agree_trans; [| exact Ht1 | exact Ht2]. lia.
+        * (* through a temporary *)
+          unfold alloc_temp in Hl.
+          eapply (temp_site f IH s ea tmp_ty read_ty (fun e => CBinop v e op b));
+            [exact Hl | exact Hwea | exact Hbea | exact Hfr | exact Hxv | | exact Hd].
+          intros s3 Hg3 Ht3. split.
+          -- cbn [wf_call LowerSem.wt_pure locals_below]. split; [|split].
+             ++ rewrite (agree_wt (g s) (te s) (te s3) Ht3 b Hbb), Hwb, wt_read_as.
+                rewrite ety_read_as, (agree_ety (g s) (te s) (te s3) Ht3 b Hbb).
+                rewrite Hread, Hsame, ty_eqb_refl. cbn [andb]. rewrite <- Hsame. exact Hio.
+             ++ apply andb_true_intro. split; [apply below_read_as; unfold var_below; cbn; lia|].
+                apply (locals_below_mono (g s)); [lia | exact Hbb].
+             ++ apply (var_below_mono (g s)); [lia | exact Hv].
+          -- cbn [sem_call]. subst m'.
+             rewrite <- update_comm by (apply not_eq_sym; apply (var_below_neq (g s)); [exact Hv | lia]).
+             apply assign_bin_intro with (av := av) (bv := bv); [| | exact Hr].
+             ++ rewrite eval_read_as. cbn [v_id]. rewrite lookup_update_same, Hcast. reflexivity.
+             ++ rewrite (agree_eval (g s) (te s) (te s3) _ Ht3 b Hbb).
+                rewrite eval_update_indep; [exact Hbv | exact Hwb | apply (below_not_uses (g s)); [lia | exact Hbb]].
+    - (* CUnop *)
+      destruct Hwf as [Hw [Hb Hv]].
+      assert (Hwfull := Hw).
+      cbn [LowerSem.wt_pure] in Hw. apply andb_prop in Hw. destruct Hw as [Hwb Hop].
+      cbn [locals_below] in Hb.
+      cbn [sem_call] in Hsem.
+      destruct (assign_un_inv _ _ _ _ _ _ Hsem) as [bv [r [Hbv [Hr Hm']]]].
+      assert (Hd : locs m' (g s) = default_of (lty (g s))).
+      { subst m'. unfold var_below in Hv. destruct (v_id v) as [r0|d0]; cbn; [apply Hfr; lia|].
+        destruct (Nat.eqb_spec (g s) d0); [lia | apply Hfr; lia]. }
+      cbn [Lower.lower] in Hl.
+      destruct (classify (te s) b) as [lb tb | eb tmp_ty read_ty] eqn:Ecb.
+      + destruct (classify_simple (te s) m b lb tb Hwb Ecb) as [Hrb Htb]. subst tb.
+        unfold var_arg in Hl.
+        destruct (negb (ty_eqb (var_read_ty (te s) v) (ety (te s) (EUn op b)))); [discriminate|].
+        destruct (leaf_unop HT _ _ _ _ _ _ _ _ _ Hwb Hl Hrb Hsem) as [Hrun ->].
+        split; [exact Hrun | split; [lia | apply te_agree_refl]].
+      + destruct (classify_elab HT (te s) b eb tmp_ty read_ty Hwb Ecb) as [Hweb [Htmp [Hread [Huse [Hbel Hev]]]]].
+        destruct (Hev m bv Hbv) as [xv [Hxv Hcast]].
+        assert (Hbeb : locals_below (g s) eb = true) by (apply Hbel; exact Hb).
+        assert (Hwt' : forall te' n, te_agree n (te s) te' -> forall x, wt_pure te' (EUn op (read_as x read_ty)) = true).
+        { intros te' n _ x. cbn [LowerSem.wt_pure]. rewrite wt_read_as, ety_read_as, Hread. exact Hop. }
+        destruct (ty_eqb tmp_ty (ety (te s) (EUn op b)) && ty_eqb tmp_ty read_ty) eqn:Ereuse.
+        * apply seq_ok in Hl. destruct Hl as [c1 [s1 [c2 [H1 [H2 Hcode]]]]].
+          destruct (IH _ _ _ _ H1) with (m := m) (m' := update m (v_id v) xv) as [Hr1 [Hg1 Ht1]];
+            [cbn [wf_call]; auto | exact Hfr | cbn [sem_call]; unfold assign_s; rewrite Hxv; reflexivity |].
+          destruct (IH _ _ _ _ H2) with (m := update m (v_id v) xv) (m' := m') as [Hr2 [Hg2 Ht2]].
+          -- cbn [wf_call]. split; [apply (Hwt' _ (g s) Ht1) | split].
+             ++ cbn [locals_below]. apply below_read_as. apply (var_below_mono (g s)); assumption.
+             ++ apply (var_below_mono (g s)); assumption.
+          -- apply fresh_update; [intros d Hd'; apply Hfr; lia|].
+             unfold var_below in Hv. destruct (v_id v); [exact I | lia].
+          -- cbn [sem_call]. subst m'.
+             rewrite <- (update_update_same m (v_id v) xv r).
+             apply assign_un_intro with (bv := bv); [| exact Hr].
+             rewrite eval_read_as, lookup_update_same, Hcast. reflexivity.
+          -- subst code. split; [|split].
+             ++ rewrite run_pure_app, Hr1. cbn [obind]. exact Hr2.
+             ++ lia.
+             ++ eapply te_agree_trans; [| exact Ht1 | exact Ht2]. lia.
+        * unfold alloc_temp in Hl.
+          eapply (temp_site f IH s eb tmp_ty read_ty (fun e => CUnop v op e));
+            [exact Hl | exact Hweb | exact Hbeb | exact Hfr | exact Hxv | | exact Hd].
+          intros s3 Hg3 Ht3. split.
+          -- cbn [wf_call]. split; [apply (Hwt' _ (g s) Ht3) | split].
+             ++ cbn [locals_below]. apply below_read_as. unfold var_below. cbn. lia.
+             ++ apply (var_below_mono (g s)); [lia | exact Hv].
+          -- cbn [sem_call]. subst m'.
+             rewrite <- update_comm by (apply not_eq_sym; apply (var_below_neq (g s)); [exact Hv | lia]).
+             apply assign_un_intro with (bv := bv); [| exact Hr].
+             rewrite eval_read_as. cbn [v_id]. rewrite lookup_update_same, Hcast. reflexivity.
+  Qed.
 End Sound.
